@@ -110,7 +110,7 @@ ChooseReqFrames ==
     /\ UNCHANGED m
 
 \* ---- faults mode: the client side
-Cuts == {"env:1", "env:4", "pay:0", "pay:1", "clean:2", "clean:6"}
+Cuts == {"env:1", "env:4", "pay:0", "pay:1", "clean:2", "clean:5", "clean:6"}
 FrameFaults(z) == {"flags:" \o ToString(v) : v \in FlagValues} \cup {"undecodable", "declover", "declunder"}
                   \cup (IF z THEN {"gzcorrupt"} ELSE {})
 
@@ -242,8 +242,8 @@ ChooseHandlerFault ==
 
 ChooseRespHeaders ==
     /\ ph = "resphdrs"
-    /\ \E hs \in HeaderSets, ts \in HeaderSets, style \in {"declared", "prefixed"} :
-         /\ (style = "prefixed" => Srv.form = "grpc")
+    /\ \E hs \in HeaderSets, ts \in HeaderSets, style \in {"declared", "prefixed", "declaredlc"} :
+         /\ (style \in {"prefixed", "declaredlc"} => Srv.form = "grpc")
          /\ (Srv.proto = "rest" \/ scn.cl.form = "rest" => ts = <<>>)   \* REST has no trailer position (DESIGN: C05 scope note)
          /\ Len(hs) <= 2 \/ Len(ts) <= 1
          /\ scn' = [scn EXCEPT !.hd.hdrs = hs, !.hd.end.trl = ts, !.hd.end.style = style]
